@@ -102,6 +102,9 @@ def _qplan(what, quick, thorough):
 
 
 PLAN = {
+    "C19": _qplan("one block object: submit (async / sync / group_async / direct call / dispatch_block_perform) racing cancel, wait (forever, 1 ms), notify and testcancel from 2-3 threads, "
+                  "flags 0 / BARRIER on a concurrent queue / QoS flags",
+                  "k<=2 for 2-thread scenarios on a serial queue, k<=1 with notify / 3 threads / concurrent queue", "k<=3 / k<=2 / k<=1"),
     "C10": _qplan("dispatch_apply with n in {0,1,2,3,5} on APPLY_AUTO / global / serial / concurrent / concurrent->serial / concurrent with a racing barrier / width-2 queues, "
                   "nested apply(2) inside apply(2), each with 1, 2 and 3 CPUs (so n is below, at and above the helper count)",
                   "k<=2 (k<=1, and k=0 for n>=3 on 3 CPUs, with the racing barrier)", "k<=3 for n<=2, k<=2 otherwise; racing barrier k<=1/2"),
@@ -234,6 +237,11 @@ def tasks_for(pid, tier):
                     out += ds("apply", k, [v], ncpu=ncpu, jobs=4)
         out.sort(key=lambda t: (t["jobs"], t["variant"]))
         return out
+    if pid == "C19":
+        small = [0, 1, 4, 5, 7, 8, 10, 11, 12, 14, 18, 20, 21, 22]
+        mid = [2, 3, 6, 9, 13, 15, 16, 19]
+        return (ds("block", 2 if q else 3, small, jobs=4) + ds("block", 1 if q else 2, mid, jobs=8) +
+                ds("block", 0 if q else 1, [17], jobs=8))
     if pid == "C15":
         out = []
         for v in variants("source"):
